@@ -20,6 +20,7 @@ import (
 	"github.com/hashicorp/hcl/v2/ext/dynblock"
 	"github.com/hashicorp/hcl/v2/hcldec"
 	"github.com/hashicorp/hcl/v2/hclsyntax"
+	hcljson "github.com/hashicorp/hcl/v2/json"
 	"github.com/zclconf/go-cty/cty"
 	"hclverif/hv"
 )
@@ -30,7 +31,8 @@ func main() { hv.Main(map[string]func(*hv.RunCfg) error{"c08": run}) }
 type input struct {
 	Spec *gspec `json:"spec"`
 	Body string `json:"body"`
-	Dyn  bool   `json:"dyn"` // wrap the body with dynblock.Expand
+	Dyn  bool   `json:"dyn"`            // wrap the body with dynblock.Expand
+	JSON bool   `json:"json,omitempty"` // the body is JSON syntax
 }
 
 func (in *input) String() string {
@@ -42,7 +44,8 @@ type job struct {
 	in      input
 	pert    string // "conforming", a perturbation name, "corpus", "precondition:<which>"
 	exp     expect
-	violate bool // a documented precondition is violated: observed for panics only
+	violate bool     // a documented precondition is violated: observed for panics only
+	tags    []string // further histogram labels (exprfail.go)
 }
 
 type outcome struct {
@@ -553,12 +556,12 @@ func corpus() []job {
 
 func run(cfg *hv.RunCfg) error {
 	rep := hv.NewReport("C08", cfg.Seed)
-	rep.Rule = "spec trees drawn from all 18 spec kinds within the documented preconditions (unique block types per body level, consecutive label indices, no dynamic types under BlockMap, Default arms of equal type, Refine over a validator); per spec a conforming native-syntax body written by the generator (which also writes down the value it expects) and one perturbed variant (19 perturbations incl. dynblock unknown/marked/known/empty for_each); plus a stream violating one precondition at a time (observed for panics only); non-trivial = spec has at least one block or wrapper spec or the body is perturbed; distinct by SHA-256 of (spec, body, dyn)"
+	rep.Rule = "spec trees drawn from all 18 spec kinds within the documented preconditions (unique block types per body level, consecutive label indices, no dynamic types under BlockMap, Default arms of equal type, Refine over a validator); per spec a conforming native-syntax body written by the generator (which also writes down the value it expects) and one perturbed variant (19 perturbations incl. dynblock unknown/marked/known/empty for_each); plus a stream violating one precondition at a time (observed for panics only); plus, in ~10 % of the cases, a conforming body (native or JSON syntax) in which one or two attribute EXPRESSIONS fail to evaluate or convert (expr-fails: 12 sorts, any depth, next to a normal sibling block, the attribute's spec under every wrapper kind); non-trivial = spec has at least one block or wrapper spec or the body is perturbed; distinct by SHA-256 of (spec, body, dyn)"
 	r := hv.NewRng(cfg.Seed, 808)
 	ctx := baseCtx()
 	hdr := &hv.ValInfo{}
 	cf := &hv.CaseFile{Dir: cfg.Out, Name: "c08cases",
-		Imports: "From Coq Require Import QArith String.\nFrom HclV Require Import Base.Prelude Cty.Values Cty.Convert Cty.Ops Eval.Impl Eval.Funcs Dec.Spec Dec.Decode Dec.DecodeCheck.\nOpen Scope string_scope.\nOpen Scope Z_scope.\nOpen Scope list_scope.\nDefinition cx : ctx := " + hv.CoqCtx(ctx, hdr) + ".\n",
+		Imports: "From Coq Require Import QArith String.\nFrom HclV Require Import Base.Prelude Cty.Values Cty.Convert Cty.Ops Eval.Impl Eval.Funcs Dec.Spec Dec.Decode Dec.DecodeCheck.\nOpen Scope string_scope.\nOpen Scope Z_scope.\nOpen Scope list_scope.\n(* traversal steps inside expressions are printed as SAttr/SIndex: the bare name is the step constructor of Eval/Impl.v, the AttrSpec constructor is printed qualified *)\nNotation SAttr := HclV.Eval.Impl.SAttr (only parsing).\nDefinition cx : ctx := " + hv.CoqCtx(ctx, hdr) + ".\n",
 		Ctype:   "dcase", Checker: "check_decode_cases",
 		Extras:  [][2]string{{"skipped", "skipped_decode_cases"}, {"noted", "noted_decode_cases"}}}
 
@@ -575,8 +578,38 @@ func run(cfg *hv.RunCfg) error {
 		jobs = append(jobs, job{in: in, pert: "replay"})
 	} else {
 		jobs = append(jobs, corpus()...)
+		jobs = append(jobs, exprFailCorpus()...)
 		g := newGen(r)
+		// the expr-fails stream draws from its own generator, so that the other streams stay as they were
+		rf := hv.NewRng(cfg.Seed, 809)
+		wantFail := 0
+		g2 := newGen(rf)
+		exprFailJob := func(s *gspec, plan *pbody) (job, bool) {
+			asJSON, heavy := rf.Chance(0.4), false
+			if rf.Chance(0.5) {
+				// half of the stream: a spec of its own with a collection block at the top
+				if s2, p2, ok := g2.blockHeavy(ctx); ok {
+					s, plan, heavy = s2, p2, true
+				}
+			}
+			p, tags, names, ok := exprFails(plan, rf, ctx, asJSON)
+			if !ok {
+				return job{}, false
+			}
+			if heavy {
+				tags = append(tags, "exprfail-spec:block-heavy")
+			}
+			s2 := wrapFailing(s, names, rf, false, false, rf.Chance(0.15), &tags)
+			in := input{Spec: s2, Body: p.text()}
+			if asJSON {
+				in.Body, in.JSON = p.jsonText(), true
+			}
+			return job{in: in, pert: "expr-fails", tags: tags}, true
+		}
 		for i := 0; i < cfg.N; i++ {
+			if i%10 == 4 {
+				wantFail++
+			}
 			if i%12 == 11 {
 				s, which := g.violatingSpec()
 				body := &pbody{}
@@ -596,6 +629,16 @@ func run(cfg *hv.RunCfg) error {
 			s := g.topSpec()
 			plan := &pbody{}
 			exp := g.genInto(s, plan, nil, ctx)
+			if wantFail > 0 && i%2 == 0 {
+				// ~10 % of the cases: an erroneous expression in an otherwise conforming body (taken from
+				// the slots of the conforming stream, which draw nothing more from r: the other streams
+				// are what they were before this stream existed)
+				if j, ok := exprFailJob(s, plan); ok {
+					wantFail--
+					jobs = append(jobs, j)
+					continue
+				}
+			}
 			if i%2 == 0 {
 				jobs = append(jobs, job{in: input{Spec: s, Body: plan.text()}, pert: "conforming", exp: exp})
 				continue
@@ -641,16 +684,28 @@ func runJob(j job, ctx *hcl.EvalContext, rep *hv.Report, cf *hv.CaseFile) {
 	key := in.String()
 	kinds := map[string]bool{}
 	in.Spec.kinds(kinds)
-	f, pd := hclsyntax.ParseConfig([]byte(in.Body), "t.hcl", hcl.InitialPos)
-	if pd.HasErrors() {
-		rep.Hist("generator:body-parse-error")
-		rep.Evaluations++
-		return
-	}
-	syn := f.Body.(*hclsyntax.Body)
-	var body hcl.Body = syn
-	if in.Dyn {
-		body = dynblock.Expand(syn, ctx)
+	var syn *hclsyntax.Body
+	var body hcl.Body
+	if in.JSON {
+		jf, pd := hcljson.Parse([]byte(in.Body), "t.hcl.json")
+		if pd.HasErrors() || in.Dyn {
+			rep.Hist("generator:body-parse-error")
+			rep.Evaluations++
+			return
+		}
+		body = jf.Body
+	} else {
+		f, pd := hclsyntax.ParseConfig([]byte(in.Body), "t.hcl", hcl.InitialPos)
+		if pd.HasErrors() {
+			rep.Hist("generator:body-parse-error")
+			rep.Evaluations++
+			return
+		}
+		syn = f.Body.(*hclsyntax.Body)
+		body = syn
+		if in.Dyn {
+			body = dynblock.Expand(syn, ctx)
+		}
 	}
 	var spec hcldec.Spec
 	func() {
@@ -687,6 +742,19 @@ func runJob(j job, ctx *hcl.EvalContext, rep *hv.Report, cf *hv.CaseFile) {
 	}
 	if in.Dyn {
 		rep.Hist("body:dynblock-expanded")
+	}
+	if in.JSON {
+		rep.Hist("body:json-syntax")
+	}
+	for _, t := range j.tags {
+		rep.Hist(t)
+	}
+	if j.pert == "expr-fails" {
+		if in.JSON {
+			rep.Hist("exprfail-syntax:json")
+		} else {
+			rep.Hist("exprfail-syntax:native")
+		}
 	}
 	switch {
 	case full.panicked:
@@ -754,6 +822,27 @@ func runJob(j job, ctx *hcl.EvalContext, rep *hv.Report, cf *hv.CaseFile) {
 				break
 			}
 		}
+		// the implied type read off the harness's own spec tree (the documentation of each spec kind),
+		// not hcldec.ImpliedType: the two must agree, and where the promised type has no dynamic part
+		// the decoded value's type must EQUAL it
+		if own, ok := ownImplied(in.Spec); ok && !ityPanic {
+			if !own.Equals(ity) {
+				fail("implied-type-differs", fmt.Sprintf("ImpliedType returned %#v; the documentation of the spec kinds says %#v", ity, own))
+			} else if !own.HasDynamicTypes() {
+				for _, o := range []struct {
+					name string
+					o    outcome
+				}{{"Decode", full}, {"PartialDecode", part}} {
+					if o.o.panicked || len(o.o.val.Type().TestConformance(ity)) > 0 {
+						continue // reported above
+					}
+					if !o.o.val.Type().Equals(own.WithoutOptionalAttributesDeep()) {
+						fail("type-not-equal", fmt.Sprintf("%s returned %#v; implied type %#v has no dynamic part", o.name, o.o.val.Type(), own))
+						break
+					}
+				}
+			}
+		}
 		if !full.panicked && !part.panicked {
 			if !full.val.RawEquals(part.val) {
 				fail("partial-vs-full-differs", fmt.Sprintf("Decode %#v, PartialDecode %#v", full.val, part.val))
@@ -790,7 +879,12 @@ func runJob(j job, ctx *hcl.EvalContext, rep *hv.Report, cf *hv.CaseFile) {
 	// ---- the Coq case --------------------------------------------------------------------
 	info := &hv.ValInfo{}
 	d := &dumper{ctx: ctx, dyn: in.Dyn, info: info}
-	ab := d.body(syn, nil, nil, false)
+	var ab string
+	if in.JSON {
+		ab = d.jsonBody(body, []*gspec{in.Spec})
+	} else {
+		ab = d.body(syn, nil, nil, false)
+	}
 	sc := in.Spec.toCoq(info)
 	fv := hv.CoqVal(full.val, info)
 	pv := hv.CoqVal(part.val, info)
